@@ -238,6 +238,27 @@ pub fn name() -> impl Strategy<Value = String> {
                 sanitize_relative(&mut p);
                 finish(render(&p, m, b))
             }),
+        // one level up and into a sibling whose name *begins with* the output directory's name
+        // ("OUT-cache", "OUT.bak", "OUTx"): outside OUT although a textual prefix test says otherwise.
+        // Optionally reached through harmless components that cancel out first (a\..\..\OUT-cache).
+        2 => (
+            prop::collection::vec("[A-Za-z0-9_]{1,6}", 0..3),
+            prop_oneof![Just("OUT-cache"), Just("OUT.bak"), Just("OUTx"), Just("OUT "), Just("OUT2"), Just("OUT_old")],
+            prop::collection::vec("[A-Za-z0-9_]{1,6}", 0..2),
+            leaf(),
+            seps.clone(),
+        )
+            .prop_map(|(down, sibling, sub, l, (m, b))| {
+                let mut p: Vec<String> = down.clone();
+                for _ in 0..down.len() + 1 {
+                    p.push("..".into());
+                }
+                p.push(sibling.to_string());
+                p.extend(sub);
+                p.push(l);
+                sanitize_relative(&mut p);
+                finish(render(&p, m, b))
+            }),
         // deep nesting
         1 => (16usize..40, 0usize..=NEST, leaf(), seps.clone()).prop_map(|(n, k, l, (m, b))| {
             let mut p: Vec<String> = (0..n).map(|i| format!("d{}", i % 7)).collect();
